@@ -27,11 +27,11 @@ type c20Dest struct {
 }
 
 type c20Route struct {
-	Type  string     `json:"type"`
-	Key   string     `json:"key"`
-	F     FilterSpec `json:"filter"`
-	Sub2  bool       `json:"use_substr_spelling"`
-	Dests []c20Dest  `json:"dests"`
+	Type  string            `json:"type"`
+	Key   string            `json:"key"`
+	F     FilterSpec        `json:"filter"`
+	Sub2  bool              `json:"use_substr_spelling"`
+	Dests []c20Dest         `json:"dests"`
 	GN    map[string]string `json:"grafananet_opts,omitempty"`
 }
 
